@@ -56,7 +56,7 @@ impl SwiftField for Field58A {
     where
         Self: Sized,
     {
-        let lines: Vec<&str> = input.lines().collect();
+        let lines = super::field_utils::content_lines(input, "Field 58A")?;
 
         let mut party_identifier = None;
         let mut bic_line_idx = 0;
@@ -101,7 +101,7 @@ impl SwiftField for Field58D {
     where
         Self: Sized,
     {
-        let mut lines = input.lines().collect::<Vec<_>>();
+        let mut lines = super::field_utils::content_lines(input, "Field 58D")?;
         let mut party_identifier = None;
 
         // Check if first line is a party identifier
@@ -120,7 +120,12 @@ impl SwiftField for Field58D {
         let mut name_and_address = Vec::new();
         for (i, line) in lines.iter().enumerate() {
             if i >= 4 {
-                break;
+                return Err(ParseError::InvalidFormat {
+                    message: format!(
+                        "Field 58D cannot have more than 4 name and address lines, found {}",
+                        lines.len()
+                    ),
+                });
             }
             if line.len() > 35 {
                 return Err(ParseError::InvalidFormat {
